@@ -1,6 +1,6 @@
 from . import session
 
-FAMILIES = [('mix', 0.6), ('loss', 0.6), ('idle', 0.4), ('events', 0.05), ('death', 0.4), ('specdeath', 0.5), ('zombie', 0.3)]
+FAMILIES = [('mix', 0.6), ('loss', 0.6), ('idle', 0.4), ('events', 0.05), ('death', 0.4), ('specdeath', 0.5), ('zombie', 0.3), ('hsloss', 0.3)]
 
 def main(ctx):
     session.run(ctx, "C12", FAMILIES, quick_count=100, thorough_count=4000, prop_mod=session.PROP_MODS.get("C12"))
